@@ -303,6 +303,17 @@ def swap_rule(names, d):
     else:
         return None
     m = {}
+    if d == 3 and 'nuEu' in names and 'nuAs' in names:
+        # populations 2 and 3 named Eu / As (out_of_africa): exchange the two tokens in every parameter name
+        for x in names:
+            y = x.replace('Eu', '\0').replace('As', 'Eu').replace('\0', 'As')
+            if 'Eu' in x and 'As' in x:
+                continue            # mEuAs: symmetric rate between the two
+            if y != x:
+                if y not in names:
+                    return None
+                m[x] = y
+        return m or None
     for x in names:
         if x == 's' and d == 2:
             m[x] = '1-s'
